@@ -780,14 +780,41 @@ func replayBigScan(c *Ctx, raw json.RawMessage) bool {
 
 // checkHugeBlob: object sizes beyond 32 bits through the real header parser.
 func checkHugeBlob(c *Ctx, driver string) {
-	for _, sizes := range [][]string{{"5000000000", "7"}, {"4294967296"}, {"4294967295", "1"}} {
+	for _, sizes := range [][]string{{"5000000000", "7"}, {"4294967296"}, {"4294967295", "1"}, {"4294967295", "4294967295", "4294967294", "3"},
+		{"4294967294", "1"}, {"9000000000", "9000000000", "1"}} {
 		bad, obs := hugeBlobOnce(driver, sizes)
 		c.CountEval(1)
 		c.Distinct("hugeblob:" + strings.Join(sizes, "+"))
 		if bad {
-			c.AddViolation(Violation{Predicate: "object_size_clamped_before_64bit_total", Spec: "Scan!C05_SaturatedStrict (Scan_D1.cfg)",
-				Kind: "hugeblob", Input: map[string]interface{}{"sizes": sizes},
-				Observed: map[string]interface{}{"reported": obs, "tag_site": "object_size_clamped_to_32_bits"}})
+			// the listed finding KF-D1 is exactly "each object size is clamped to 2^32-1 before it enters the
+			// 64-bit total": only a report that this explains carries its tag; any other wrong value is new
+			o := map[string]interface{}{"reported": obs}
+			pred := "huge_object_total_wrong"
+			clamped := new(big.Int)
+			cap32 := new(big.Int).SetUint64(4294967295)
+			for _, s := range sizes {
+				n, _ := new(big.Int).SetString(s, 10)
+				if n.Cmp(cap32) > 0 {
+					n = cap32
+				}
+				clamped.Add(clamped, n)
+			}
+			mxc := new(big.Int)
+			for _, s := range sizes {
+				if n, _ := new(big.Int).SetString(s, 10); n.Cmp(mxc) > 0 {
+					mxc = n
+				}
+			}
+			if mxc.Cmp(cap32) > 0 {
+				mxc = cap32
+			}
+			if obs["unique_blob_size"] == clamped.String() && obs["max_expanded_blob_size"] == clamped.String() &&
+				obs["max_blob_size"] == mxc.String() && obs["max_expanded_blob_count"] == fmt.Sprint(len(sizes)) {
+				o["tag_site"] = "object_size_clamped_to_32_bits"
+				pred = "object_size_clamped_before_64bit_total"
+			}
+			c.AddViolation(Violation{Predicate: pred, Spec: "Scan!C05_SaturatedStrict (Scan_D1.cfg)",
+				Kind: "hugeblob", Input: map[string]interface{}{"sizes": sizes}, Observed: o})
 		}
 	}
 }
@@ -812,7 +839,8 @@ func hugeBlobOnce(driver string, sizes []string) (bool, map[string]string) {
 	if mx.Cmp(cap32) > 0 {
 		mx = cap32
 	}
-	return obs["unique_blob_size"] != sum.String() || obs["max_blob_size"] != mx.String(), obs
+	return obs["unique_blob_size"] != sum.String() || obs["max_blob_size"] != mx.String() ||
+		obs["max_expanded_blob_size"] != sum.String() || obs["max_expanded_blob_count"] != fmt.Sprint(len(sizes)), obs
 }
 
 func replayHugeBlob(c *Ctx, raw json.RawMessage) bool {
